@@ -57,7 +57,7 @@ TABLE = [
      "balance counter changes by at most one per peeked character and at most 32 characters are peeked"),
     (r"rust_value::ty_example", "may-panic-call", r"__private::mk_ident", r".*choose\(.*variants.*",
      "W3: variant names are identifiers"),
-    (r"rust_value::fields_example", "may-panic-call", r"__private::mk_ident", r".*elem\(P0\)\.name.*",
+    (r"rust_value::fields_example", "may-panic-call", r"__private::mk_ident", r".*(elem\(P0\)|C1_0)\.name.*",
      "W3: field names are identifiers"),
 ]
 TABLE = [(re.compile(a), k, re.compile(c), re.compile(o, re.S), r) for a, k, c, o, r in TABLE]
